@@ -4,8 +4,10 @@ CONSTANTS
   Jobs = {2}
   Kinds = {"float", "none"}
   WithPre = FALSE
-  RepKinds = {"pruned"}
+  RepKinds = {}
   Misbehave = FALSE
+  AskMisbehave = FALSE
+  Swallow = FALSE
 INVARIANT Inv
 PROPERTY TellNeverAltersFinished
 PROPERTY OthersUntouched
